@@ -392,6 +392,10 @@ pub fn gen_state(r: &mut Xo, cfg: &MCfg, nstates: usize) -> State {
 }
 
 pub fn gen_frac(r: &mut Xo) -> f64 {
+    if r.chance(1, 24) {
+        // positive but tiny: still a limit
+        return *r.pick(&[f64::MIN_POSITIVE, 5.0e-324, 1.0e-300, 1.0e-17, f64::EPSILON, f64::EPSILON / 2.0]);
+    }
     match r.below(8) {
         0 | 1 | 2 => 0.0,
         3 => 1.0,
